@@ -417,7 +417,12 @@ func msgBodyIsRest(in *Input, res *OpRes) bool {
 	if in.Flags&uint(sipsp.SIPMsgSkipBodyF|sipsp.SIPMsgCLenReqF) != 0 {
 		return false
 	}
-	return res.Calls[0].E == sipsp.ErrHdrOk
+	if res.Calls[0].E != sipsp.ErrHdrOk {
+		return false
+	}
+	// only a message WITHOUT Content-Length has "the rest of the buffer" as its body
+	x, ok := newRun(in, nil).obj.(*oMsg)
+	return ok && !x.m.PV.CLen.Parsed()
 }
 
 // compares two message observations ignoring Body, len(Buf), RawMsg (the last 9 values)
